@@ -33,6 +33,7 @@ type c02fGroup struct {
 	Call  string // printable expression over a, b
 	A, B  []uint64
 	IntA  bool // A holds integer values of kind K (two's complement), not bit patterns
+	ProgB bool // the program's only variable operand is B (A is a constant of the source text)
 	Reg   []string
 	Base  int
 }
@@ -177,6 +178,38 @@ func c02FloatStream(sm *summary, out string, tier string, seed uint64) error {
 			pairs(g, rot(10, oi+5), rot(10, oi+7))
 			randomPairs(g, k, 20*scale)
 			add(g)
+		}
+		// constant operand on either side (rows FC1 / FC0): exact hexadecimal literals of the kind
+		type kc struct {
+			lit  string
+			bits uint64
+		}
+		consts := []kc{{"0x1p+0", 0x3f800000}, {"0x1p-24", 0x33800000}, {"0x1.99999ap-4", 0x3dcccccd}, {"0x1.fffffep+127", 0x7f7fffff}, {"0x1p-149", 1}}
+		if k == "float64" {
+			consts = []kc{{"0x1p+0", 0x3ff0000000000000}, {"0x1p-53", 0x3ca0000000000000}, {"0x1.999999999999ap-4", 0x3fb999999999999a}, {"0x1.fffffffffffffp+1023", 0x7fefffffffffffff}, {"0x1p-1074", 1}}
+		}
+		for oi, op := range []string{"+", "-", "*", "/"} {
+			o := c02fOpName[op]
+			for ci := 0; ci < 3; ci++ {
+				c := consts[(ci+oi+int(seed))%len(consts)]
+				for _, left := range []bool{false, true} {
+					form, expr, tag := "FC1", "x "+op+" "+c.lit, fmt.Sprintf("%s%sc%dr", o, n, ci)
+					if left {
+						form, expr, tag = "FC0", c.lit+" "+op+" x", fmt.Sprintf("%s%sc%dl", o, n, ci)
+					}
+					g := &c02fGroup{Tag: tag, Coq: fmt.Sprintf("FCBin %s %s", o, form), K: k, KC: k, ATyp: "uint64",
+						Decl: fmt.Sprintf("func f_%s(a uint64) uint64 { %s; r := %s; return %s }", tag, from("x", "a"), expr, toBits(k, "r")),
+						Call: fmt.Sprintf("f_%s(a)", tag), ProgB: left}
+					for _, x := range c02fValues(k, r, 4*scale) {
+						if left { // the constant is the first operand of the expression
+							g.A, g.B, g.Reg = append(g.A, c.bits), append(g.B, x), append(g.Reg, "")
+						} else {
+							g.A, g.B, g.Reg = append(g.A, x), append(g.B, c.bits), append(g.Reg, "")
+						}
+					}
+					add(g)
+				}
+			}
 		}
 		for oi, op := range []string{"==", "!=", "<", "<=", ">", ">="} {
 			o := c02fOpName[op]
@@ -327,7 +360,11 @@ func c02FloatStream(sm *summary, out string, tier string, seed uint64) error {
 			}
 			fmt.Fprintf(&src, "var %s_%s = []%s{%s}\n", name, g.Tag, typ, strings.Join(items, ", "))
 		}
-		lit("A", g.A, g.ATyp)
+		if g.ProgB {
+			lit("A", g.B, g.ATyp)
+		} else {
+			lit("A", g.A, g.ATyp)
+		}
 		if strings.Contains(g.Call, ", b)") {
 			lit("B", g.B, "uint64")
 		}
